@@ -189,6 +189,7 @@ type rxPacket struct {
 // Up to N parallel servers
 func (svr *Server) sftpServerWorker(pktChan chan orderedRequest) error {
 	for pkt := range pktChan {
+		verifHook(vhSrvWorker, 0, pkt.orderID(), nil)
 		// readonly checks
 		readonly := true
 		switch pkt := pkt.requestPacket.(type) {
